@@ -11,8 +11,10 @@
               binary   as_binary(tree);   copy   tree.copy()
               eqCopy, eqMirror, eqOther, eqNewick, hashCopy, hashMirror   booleans
               leavesAfter, distAfter   leaves / get_distance asked again after all those calls
+              raised   the calls of the event that ended with an exception (expected: none)
    "upgma"  D; obs = [oc, leaves, nodes] (see UpgmaPostObs), tree (diagnostic),
-            changed = cells <<i, j>> of the caller's array that differ from a snapshot taken before the call
+            changed = cells <<i, j>> of the caller's array that differ from a snapshot taken before the call,
+            rt = the returned tree and the tree parsed back from its to_newick() (see ResultNwOK)
    "nj"     D; obs = [oc, leaves, dist, rootArity], tree (diagnostic), changed
    "session" D, kind (ArrayKinds), calls = <<[fn, obs, changed], ...>>: a history of calls of upgma /
             neighbor_joining on one array object of that kind (obs as for "upgma" / "nj"; every returned
@@ -70,6 +72,9 @@ JudgeTreeWith(e, t, inf, uinf, zinf, ctz, pNw, pNoDist, pLabels, pBlanks, pBinar
                   /\ o.eqMirror = SameTree(t, TreeOf(e.mirror)) /\ (o.eqMirror => o.hashMirror)
                   /\ o.eqOther = SameTree(t, TreeOf(e.other))
                   /\ o.eqNewick
+                  \* every call of the event returned (an observation of a call that raised is a value no
+                  \* specification value equals - except a boolean, hence the list of those calls)
+                  /\ o.raised = <<>>
       \* beyond the statement: exact branch lengths and child order through Newick / copy / as_binary
       dExact   == SameTree(pNw, t) /\ SameTree(pCopy, t) /\ SameTree(pBinary, AsBinary(t))
       flags == <<okDomain, okLeaves, okDist, okTopo, okLca, okNewick, okNoDist, okBinary, okCopy, okEq, okAfter>>
@@ -103,9 +108,19 @@ NjFlags(D, o) == Bind(Dom_Matrix(D), LAMBDA dom : Bind(dom /\ Dom_Additive(D), L
 AllTrue(flags) == \A q \in DOMAIN flags : flags[q]
 \* the caller's array is the same after the call (ArrayAfter)
 Unchanged(changed) == changed = <<>>
+\* the tree a clustering function returned is a tree like any other: it keeps its topology and every
+\* leaf-to-leaf distance through to_newick / from_newick (rt = [tree, dist, nw |-> [tree, dist]]: shapes without
+\* lengths and the matrices of get_distance(i, j); a distance without a small rational near it is the same marker
+\* in both matrices)
+ResultNwOK(oc, rt) ==
+  oc = "ok" =>
+    /\ TopologyIs(TreeOf(rt.nw.tree), CanonTree(ZeroLens(TreeOf(rt.tree))))
+    /\ Len(rt.nw.dist) = Len(rt.dist)
+    /\ \A i \in DOMAIN rt.dist : /\ Len(rt.nw.dist[i]) = Len(rt.dist[i])
+                                 /\ \A j \in DOMAIN rt.dist[i] : REq(rt.nw.dist[i][j], rt.dist[i][j])
 
 JudgeUpgma(e) ==
-  \E dom \in {Dom_Matrix(e.D) /\ Len(e.D) >= 2} : \E f \in {UpgmaFlags(e.D, e.obs) \o <<Unchanged(e.changed)>>} :
+  \E dom \in {Dom_Matrix(e.D) /\ Len(e.D) >= 2} : \E f \in {UpgmaFlags(e.D, e.obs) \o <<Unchanged(e.changed), ResultNwOK(e.obs[1], e.rt)>>} :
     \* no verdict: the specification's own run (first minimum in scan order) gives the same clades
     /\ IF ~dom \/ e.obs[1] # "ok" \/ Clades(Upgma(e.D)) = Clades(TreeOf(e.tree)) THEN TRUE
         ELSE PrintT(<<"DIAG", tid, l + 1, "upgma-topology">>)
@@ -113,7 +128,7 @@ JudgeUpgma(e) ==
         ELSE PrintT(<<"MISMATCH", tid, l + 1, f, [tree |-> IF dom THEN CanonTree(Upgma(e.D)) ELSE LeafN(R(0), 0)]>>)
 
 JudgeNj(e) ==
-  \E f \in {NjFlags(e.D, e.obs) \o <<Unchanged(e.changed)>>} :
+  \E f \in {NjFlags(e.D, e.obs) \o <<Unchanged(e.changed), ResultNwOK(e.obs[1], e.rt)>>} :
     IF AllTrue(f) THEN TRUE
     ELSE PrintT(<<"MISMATCH", tid, l + 1, f, [additive |-> Dom_Matrix(e.D) /\ Dom_Additive(e.D)]>>)
 
@@ -123,9 +138,9 @@ JudgeSession(e) ==
   \E per \in {[c \in DOMAIN e.calls |->
                  (IF e.calls[c].fn = "upgma" THEN UpgmaFlagsIn(e.D, e.calls[c].obs, dom /\ Len(e.D) >= 2)
                                             ELSE NjFlagsIn(e.D, e.calls[c].obs, dom, additive))
-                 \o <<Unchanged(e.calls[c].changed)>>]} :
+                 \o <<Unchanged(e.calls[c].changed), ResultNwOK(e.calls[c].obs[1], e.calls[c].rt)>>]} :
   \E f \in {<<Dom_SymNonNeg(e.D) => Dom_Kind(e.D, e.kind), \A c \in DOMAIN per : per[c][1], \A c \in DOMAIN per : per[c][2],
-               \A c \in DOMAIN per : per[c][3], \A c \in DOMAIN per : per[c][4]>>} :
+               \A c \in DOMAIN per : per[c][3], \A c \in DOMAIN per : per[c][4], \A c \in DOMAIN per : per[c][5]>>} :
     IF AllTrue(f) /\ e.kind \in ArrayKinds /\ \A c \in DOMAIN e.calls : e.calls[c].fn \in ClusterFns THEN TRUE
     ELSE PrintT(<<"MISMATCH", tid, l + 1, f, [calls |-> per]>>)
 
